@@ -39,7 +39,7 @@ def cases():
     return out
 
 
-def render(i, c):
+def render_blk(i, c):
     n, m, k, cx = c["n"], c["m"], c["kind"], c["ctx"]
     f = ["static void f%d(void) {" % i, " int ok = 1, al = 1, dj = 1; long r = 0, e = 0; volatile int n = %d, m = %d;" % (n, m),
          " char loc[24]; volatile long l1 = 0x1111; gn = 0; use(loc, 24, 5); gn = 0;"]
@@ -89,7 +89,38 @@ def render(i, c):
     return "\n".join(f) + "\n"
 
 
+# ---- frames: FrameI.tla's alphabet on the real binary: <= 3 locals, each aligned, disjoint, contents survive
+LOCALS = [("char %s", 1, 1), ("char %s[3]", 3, 1), ("long %s", 8, 8), ("char %s[17]", 17, 16), ("_Alignas(16) char %s", 1, 16),
+          ("_Alignas(8) char %s[3]", 3, 8), ("struct __attribute__((aligned(16))) { int a; } %s", 16, 16), ("_Alignas(4) short %s[5]", 10, 4)]
+
+
+def frame_cases():
+    import itertools
+    out = []
+    for n in (1, 2, 3):
+        for seq in itertools.product(range(len(LOCALS)), repeat=n):
+            out.append(dict(kind="frame", ctx="locals", n=n, m=0, seq=list(seq)))
+    return out
+
+
+def render_frame(i, c):
+    f = ["static void f%d(void) {" % i, " int ok = 1, al = 1, dj = 1;"]
+    for j, k in enumerate(c["seq"]):
+        f.append(" " + LOCALS[k][0] % ("v%d" % j) + ";")
+    for j, k in enumerate(c["seq"]):
+        f.append(" use((char *)&v%d, %d, %d); al = al && AL(&v%d, %d);" % (j, LOCALS[k][1], 10 + 20 * j, j, LOCALS[k][2]))
+    f.append(" id(1);")
+    for j, k in enumerate(c["seq"]):
+        f.append(" ok = ok && chk((char *)&v%d, %d, %d);" % (j, LOCALS[k][1], 10 + 20 * j))
+        for j2 in range(j):
+            f.append(" dj = dj && disj(&v%d, %d, &v%d, %d);" % (j, LOCALS[k][1], j2, LOCALS[c["seq"][j2]][1]))
+    f += [' printf("B %d %%d %%d %%d 1\\n", ok, al, dj);' % i, "}"]
+    return "\n".join(f) + "\n"
+
+
 def judge(i, lines):
+    if i in lines.get(("skipped",), ()):
+        return None
     got = lines.get(("B", i))
     if got is None:
         return "no-output"
@@ -98,7 +129,12 @@ def judge(i, lines):
     return "+".join(bad) if bad else None
 
 
+def render_any(i, c):
+    return render_frame(i, c) if c["kind"] == "frame" else render_blk(i, c)
+
+
 def check(ctx, tree, cs, first=0):
+    render = render_any
     items = [(first + k, c) for k, c in enumerate(cs)]
     lines, bad = c04.run_all(ctx, "chibicc", tree, items, render, "blocks", per=40, prelude=PRELUDE)
     failing = [(i, c, "%s:%s" % (info[0], "crash" if info[1] not in (0, 1) else "rejected")) for i, c, info in bad]
@@ -116,14 +152,16 @@ def check(ctx, tree, cs, first=0):
             if i in gb or judge(i, glines):
                 ctx.oracle_disagreements += 1
                 continue
-            ctx.report("blocks:%s:%s:%s" % (c["kind"], c["ctx"], v), "%s of %d bytes (second %d) in context %s: %s" % (c["kind"], c["n"], c["m"], c["ctx"], v),
+            ctx.report("blocks:%s:%s:%s" % (c["kind"], c["ctx"], v), "%s of %d bytes (second %d) in context %s %s: %s" % (c["kind"], c["n"], c["m"], c["ctx"], c.get("seq", ""), v),
                        case=dict(kind="blocks", case=c, index=i, source=PRELUDE + render(i, c)))
     ctx.cov["traces_validated_against_impl"] += len(items) - len(bad)
 
 
 def run_blocks(ctx, tree, q):
     cs = cases()
-    ctx.sample(dict(kind="blocks", case=cs[3], c_source=render(0, cs[3])))
+    ctx.sample(dict(kind="blocks", case=cs[3], c_source=render_blk(0, cs[3])))
+    fr = frame_cases()
+    cs = cs + (vt.subsample(fr, ctx.seed, 2) if q else fr)
     check(ctx, tree, cs)
     ctx.cov["block_cases"] = len(cs)
 
